@@ -101,6 +101,10 @@ INTERACTIVE = [
     ("i-forall-body-error", ["t = tab(2, 1);", "forall e in t loop", "raise boom;", "end loop;", "t.concat(5);", "print t.count();", 'e = "s";', "print e;"]),
     ("i-function", ["function f(a) return integer is", "begin", "return a * 2;", "end;", "print f(4);"]),
     ("i-return", ["return;", 'print "after";']),
+    # variables whose names are also console commands
+    ("i-command-name-run", ['print "a";', "run = 3;", "print run;"]),
+    ("i-command-name-list", ["list = 5;", "print list + 1;"]),
+    ("i-command-name-dump", ["dump = 5;", "print dump + 1;"]),
     ("i-begin-error", ["begin", "for i in 1 to 2 loop", "raise inner;", "end loop;", "exception when others then", 'print "caught";', "end;", "for k in 1 to 2 loop", "print k;", "end loop;"]),
 ]
 
